@@ -1,4 +1,4 @@
-import Pycoin.Proofs.ChainHist
+import Pycoin.Proofs.ChainNoErr
 import Pycoin.Proofs.ChainSpec
 import Pycoin.Model.ChainFinderOld
 import Pycoin.Spec.Chain
@@ -8,29 +8,29 @@ Property theorems (core Lean only).  Histories are arbitrary lists of `add_heade
 calls on a fresh `BlockChain(anchor)`; every call carries its own `set.pop()` ranking and the set iteration
 order is a parameter, so each statement holds for every order CPython may choose.
 
-All statements about the BlockChain are conditional on the model run returning (an `.error` is a Python
-exception, reported by the harness oracle) and on `HypRun`: after every `add_headers` the finder is *sound* (every tree
-is the upward path from its bottom, every bottom filed under a top has a tree ending there) and after every
-`lock_to_index` the rebuilt finder still holds the unlocked remainder of the reported chain.  That is the part
-of `C15_chainfinder_inv` the BlockChain proofs consume; it is checked by evaluation on every generated history
-(model = implementation, and the reference oracle), not yet proved for every pop order — hence `_partial`.
+Hypotheses that remain, both explicit: `Step.avoids anchor0` (no delivered header carries the anchor's own hash:
+the anchor is outside the forest) and `runHist … = .ok …` (the model run returns; an `.error` is a Python exception
+or a walk that never ends).  `C15_never_raises` discharges the second one for well-formed histories: headers whose
+parent relation is acyclic — the explicit hypothesis `Step.wf f`, a rank `f` that drops along every parent link, which
+is what the hash property gives — and `lock_to_index(i)` called with `i ≤ length()`.  Nothing is assumed about the finder any more: `C15_chainfinder_inv` proves its
+invariant for every forest, batching and pop order, and `lockToIndex_full` that the finder rebuilt by
+`lock_to_index` still holds the unlocked remainder of the reported chain.
 -/
 namespace Pycoin.Chain
 open Pycoin.Spec.Chain
 
 /-! ## replaying the returned ops -/
 
-/-- **C15_replay_ops** (partial: extra hypothesis `HypRun`, see the header).  For every history, applying all
-returned add/remove ops, in order, to an empty list succeeds (every "add" appends at the stated index, every
-"remove" takes the last element at the stated index) and yields exactly the chain read back through
-`length()` / `hash_for_index(i)`. -/
-theorem C15_replay_ops_partial (anchor0 : Nat) (rev : Bool) (steps : List Step) (obs : List Obs) (bc' : BC)
+/-- **C15_replay_ops**.  For every history, applying all returned add/remove ops, in order, to an empty list
+succeeds (every "add" appends at the stated index, every "remove" takes the last element at the stated index) and
+yields exactly the chain read back through `length()` / `hash_for_index(i)`. -/
+theorem C15_replay_ops (anchor0 : Nat) (rev : Bool) (steps : List Step) (obs : List Obs) (bc' : BC)
     (hav : ∀ s ∈ steps, s.avoids anchor0)
-    (hh : HypRun rev (BC.new anchor0) steps)
     (hr : runHist rev (BC.new anchor0) steps = .ok (obs, bc')) :
     ∃ L : List Nat, replay (allOps obs) [] = some L ∧ bc'.length rev = .ok L.length ∧
       ∀ i (hi : i < L.length), bc'.hashForIndex rev i = .ok L[i] := by
-  obtain ⟨c', g, r⟩ := run_good anchor0 rev steps (BC.new anchor0) bc' [] obs (Good.init anchor0) hav hh hr
+  obtain ⟨c', f, r⟩ := run_full anchor0 rev steps (BC.new anchor0) bc' [] obs (Full.init anchor0) hav hr
+  have g := f.good
   refine ⟨lockedHashes bc' ++ c'.reverse, by simpa [lockedHashes, BC.new] using r, length_good rev g, ?_⟩
   intro i hi
   obtain ⟨t, ht, e⟩ := tupleForIndex_good rev g i hi
@@ -38,20 +38,20 @@ theorem C15_replay_ops_partial (anchor0 : Nat) (rev : Bool) (steps : List Step) 
 
 /-! ## lookups agree with the reported chain -/
 
-/-- **C15_index_maps_agree** (partial: `HypRun`).  After every history there is one duplicate-free list `L`
-(the locked part followed by the unlocked part) such that `length()` is its length, `hash_for_index(i)` and the
-hash of `tuple_for_index(i)` are `L[i]`, `index_for_hash(h) = i` exactly when `L[i] = h`, and
-`last_block_hash()` is its last element (the anchor when it is empty). -/
-theorem C15_index_maps_agree_partial (anchor0 : Nat) (rev : Bool) (steps : List Step) (obs : List Obs) (bc' : BC)
+/-- **C15_index_maps_agree**.  After every history there is one duplicate-free list `L` (the locked part followed
+by the unlocked part) such that `length()` is its length, `hash_for_index(i)` and the hash of `tuple_for_index(i)` are
+`L[i]`, `index_for_hash(h) = i` exactly when `L[i] = h`, and `last_block_hash()` is its last element (the anchor when
+it is empty). -/
+theorem C15_index_maps_agree (anchor0 : Nat) (rev : Bool) (steps : List Step) (obs : List Obs) (bc' : BC)
     (hav : ∀ s ∈ steps, s.avoids anchor0)
-    (hh : HypRun rev (BC.new anchor0) steps)
     (hr : runHist rev (BC.new anchor0) steps = .ok (obs, bc')) :
     ∃ L : List Nat, L.Nodup ∧ bc'.length rev = .ok L.length ∧
       (∀ i (hi : i < L.length), bc'.hashForIndex rev i = .ok L[i] ∧
         ∃ t, bc'.tupleForIndex rev i = .ok t ∧ t.1 = L[i]) ∧
       (∀ h i, bc'.indexForHash h = some i ↔ ∃ n : Nat, i = (n : Int) ∧ L[n]? = some h) ∧
       bc'.lastBlockHash rev = .ok (L.getLast?.getD anchor0) := by
-  obtain ⟨c', g, _⟩ := run_good anchor0 rev steps (BC.new anchor0) bc' [] obs (Good.init anchor0) hav hh hr
+  obtain ⟨c', f, _⟩ := run_full anchor0 rev steps (BC.new anchor0) bc' [] obs (Full.init anchor0) hav hr
+  have g := f.good
   refine ⟨lockedHashes bc' ++ c'.reverse, g.nodup, length_good rev g, ?_, g.exact, ?_⟩
   · intro i hi
     obtain ⟨t, ht, e⟩ := tupleForIndex_good rev g i hi
@@ -70,106 +70,62 @@ theorem C15_index_maps_agree_partial (anchor0 : Nat) (rev : Bool) (steps : List 
       simp only [BC.hashForIndex, ht, bind, Except.bind, e]
       rw [List.getLast?_eq_getElem?, List.getElem?_eq_getElem hi]; rfl
 
-/-! ## maximum weight, given a complete finder -/
+/-! ## the model never raises on well-formed histories -/
 
-theorem chainWeight_append (w : Dict Nat) (a b : List Nat) : chainWeight w (a ++ b) = chainWeight w a + chainWeight w b := by
-  simp [chainWeight]
+/-- **C15_never_raises**.  For every history whose delivered headers do not carry the anchor's hash and rank above
+their parents for some rank function `f` (acyclicity, the named hypothesis), and whose `lock_to_index(i)` calls satisfy
+`i ≤ length()`, every call returns: no `KeyError`/`IndexError`, every upward walk (`meld_new_hashes`, `maximum_path`)
+ends within the fuel `len(parent_lookup) + 1`, whatever the pop order. -/
+theorem C15_never_raises (f : Nat → Nat) (anchor0 : Nat) (rev : Bool) (steps : List Step)
+    (hwf : ∀ s ∈ steps, s.wf f anchor0) (hlk : LocksWithin rev (BC.new anchor0) steps) :
+    ∃ obs bc', runHist rev (BC.new anchor0) steps = .ok (obs, bc') := by
+  obtain ⟨⟨obs, bc'⟩, h⟩ := run_ok f anchor0 rev steps (BC.new anchor0) [] (Full.init anchor0)
+    (by intro k v hk; simp [BC.new, CF.empty, dget] at hk) hwf hlk
+  exact ⟨obs, bc', h⟩
 
-theorem pickBest_max (w : Dict Nat) : ∀ (cs : List (List Nat)) (mw : Nat) (best : List Nat),
-    (∀ c ∈ cs, chainWeight w c ≤ (pickBest w cs (mw, best)).1) ∧ mw ≤ (pickBest w cs (mw, best)).1 ∧
-    (((pickBest w cs (mw, best)).2 ∈ cs ∧ (pickBest w cs (mw, best)).1 = chainWeight w (pickBest w cs (mw, best)).2) ∨
-      (pickBest w cs (mw, best)) = (mw, best))
-  | [], mw, best => by simp [pickBest]
-  | c :: cs, mw, best => by
-      unfold pickBest
-      by_cases h : chainWeight w c > mw
-      · simp only [h, if_true]
-        obtain ⟨i1, i2, i3⟩ := pickBest_max w cs (chainWeight w c) c
-        refine ⟨?_, by omega, ?_⟩
-        · intro c' hc'
-          rcases List.mem_cons.mp hc' with e | e
-          · subst e; exact i2
-          · exact i1 c' e
-        · rcases i3 with ⟨m, e⟩ | e
-          · exact Or.inl ⟨List.mem_cons_of_mem _ m, e⟩
-          · left; rw [e]; simp
-      · simp only [h, if_false]
-        obtain ⟨i1, i2, i3⟩ := pickBest_max w cs mw best
-        refine ⟨?_, i2, ?_⟩
-        · intro c' hc'
-          rcases List.mem_cons.mp hc' with e | e
-          · subst e; omega
-          · exact i1 c' e
-        · rcases i3 with ⟨m, e⟩ | e
-          · exact Or.inl ⟨List.mem_cons_of_mem _ m, e⟩
-          · exact Or.inr e
+theorem Step.wf.avoids {f : Nat → Nat} {anchor0 : Nat} {s : Step} (h : s.wf f anchor0) : s.avoids anchor0 := by
+  cases s with
+  | add batch rank => exact fun hd hm => (h hd hm).1
+  | lock index rank => trivial
 
-/-- the finder is complete for the anchor `a`: every chain of registered headers that ends right above `a`
-(tip first) is the upper part of one of the enumerated leaf-to-anchor paths -/
-def FinderComplete (rev : Bool) (cf : CF) (a : Nat) : Prop :=
-  ∀ c' : List Nat, c' ≠ [] → UpPath cf.parent (c' ++ [a]) →
-    ∃ chains pre, cf.allChainsEndingAt rev a = .ok chains ∧ (pre ++ c' ++ [a]) ∈ chains
-
-/-- **C15_blockchain_over_spec** (partial: one `add_headers` call from a state satisfying the BlockChain
-invariant `Good`, stated over the finder's own parent relation rather than over `Spec.Chain`).  IF the finder
-is sound and complete after the call THEN the unlocked chain reported after it is a chain from the anchor and no
-chain from the anchor among the registered headers is heavier.  (`lock_to_index` does not change the reported
-chain: `lockToIndex_good`.) -/
-theorem C15_blockchain_over_spec_partial (anchor0 : Nat) (rev : Bool) (rank : List Nat) (bc bc' : BC) (c : List Nat)
-    (batch : List Header) (ops : List Op)
-    (h0 : ∀ hd ∈ batch, hd.hash ≠ anchor0) (g : Good anchor0 bc c)
-    (hr : bc.addHeaders rev rank batch = .ok (ops, bc'))
-    (hs : FinderSound bc'.finder) (hc : FinderComplete rev bc'.finder bc'.parentHash) :
-    ∃ c', Good anchor0 bc' c' ∧ bc'.cache = some c' ∧ UpPath bc'.finder.parent (c' ++ [bc'.parentHash]) ∧
+/-- **C15_wellformed_history**: everything together, with no hypothesis about the run.  For a well-formed history the
+calls return, the returned ops replay to the reported chain, the lookups agree with it, and its unlocked part is a
+heaviest chain of registered headers above the current anchor. -/
+theorem C15_wellformed_history (f : Nat → Nat) (anchor0 : Nat) (rev : Bool) (steps : List Step)
+    (hwf : ∀ s ∈ steps, s.wf f anchor0) (hlk : LocksWithin rev (BC.new anchor0) steps) :
+    ∃ obs bc' L c, runHist rev (BC.new anchor0) steps = .ok (obs, bc') ∧
+      replay (allOps obs) [] = some L ∧ L = lockedHashes bc' ++ c.reverse ∧ L.Nodup ∧
+      bc'.length rev = .ok L.length ∧
+      (∀ i (hi : i < L.length), bc'.hashForIndex rev i = .ok L[i]) ∧
+      (∀ h i, bc'.indexForHash h = some i ↔ ∃ n : Nat, i = (n : Int) ∧ L[n]? = some h) ∧
+      UpPath bc'.finder.parent (c ++ [bc'.parentHash]) ∧
       ∀ c'' : List Nat, UpPath bc'.finder.parent (c'' ++ [bc'.parentHash]) →
-        chainWeight bc'.weight c'' ≤ chainWeight bc'.weight c' := by
-  obtain ⟨c', g', _, _⟩ := addHeaders_good anchor0 rev rank bc bc' c batch ops h0 g hr hs
-  -- what the call left in the cache
-  unfold BC.addHeaders at hr
-  obtain ⟨⟨old, bc1⟩, h1, hr⟩ := bind_ok hr
-  try simp only at hr
-  obtain ⟨finder', h2, hr⟩ := bind_ok hr
-  try simp only at hr
-  obtain ⟨⟨new, bc3⟩, h3, hr⟩ := bind_ok hr
-  try simp only at hr
-  obtain ⟨⟨oldPath, newPath⟩, h4, hr⟩ := bind_ok hr
-  try simp only at hr
-  unfold BC.longest at h3
-  try simp only at h3
-  obtain ⟨chains, h3a, h3⟩ := bind_ok h3
-  simp only [Except.ok.injEq, Prod.mk.injEq] at h3
-  obtain ⟨rfl, rfl⟩ := h3
-  unfold BC.emitOps at hr
-  obtain ⟨⟨rops, m1⟩, h5, hr⟩ := bind_ok hr
-  try simp only at hr
-  simp only [Except.ok.injEq, Prod.mk.injEq] at hr
-  obtain ⟨_, rfl⟩ := hr
-  simp only at hs hc g' h3a ⊢
-  have hcache : c' = (pickBest (feed bc1.h2i bc1.locked.length bc1.weight batch).1 chains (0, [])).2.dropLast := by
-    rcases g'.cur with h | ⟨h, _⟩
-    · simp only [Option.some.injEq] at h; exact h.symm
-    · cases h
-  generalize hw : (feed bc1.h2i bc1.locked.length bc1.weight batch).1 = w at *
-  refine ⟨c', g', by rw [hcache], g'.path, ?_⟩
-  intro c'' hu
-  by_cases hne : c'' = []
-  · subst hne; simp [chainWeight]
-  · obtain ⟨chains', pre, hch, hm⟩ := hc c'' hne hu
-    rw [h3a] at hch
-    injection hch with hch; subst hch
-    obtain ⟨i1, _, i3⟩ := pickBest_max w chains 0 []
-    have hle := i1 _ hm
-    rw [chainWeight_append, chainWeight_append] at hle
-    rcases i3 with ⟨m, e⟩ | e
-    · obtain ⟨_, hl⟩ := allChains_spec rev finder' hs bc1.parentHash chains h3a _ m
-      obtain ⟨ys, hys⟩ := List.getLast?_eq_some_iff.mp hl
-      rw [e, hys, chainWeight_append] at hle
-      rw [hcache, hys]; simp only [List.dropLast_concat]
-      omega
-    · rw [e] at hle
-      simp only at hle
-      rw [hcache, e]; simp [chainWeight] at hle ⊢
-      omega
+        chainWeight bc'.weight c'' ≤ chainWeight bc'.weight c := by
+  obtain ⟨obs, bc', hr⟩ := C15_never_raises f anchor0 rev steps hwf hlk
+  have hav : ∀ s ∈ steps, s.avoids anchor0 := fun s hs => (hwf s hs).avoids
+  obtain ⟨c', fl, r⟩ := run_full anchor0 rev steps (BC.new anchor0) bc' [] obs (Full.init anchor0) hav hr
+  have g := fl.good
+  refine ⟨obs, bc', lockedHashes bc' ++ c'.reverse, c', hr, by simpa [lockedHashes, BC.new] using r, rfl, g.nodup,
+    length_good rev g, ?_, g.exact, g.path, fl.heaviest⟩
+  intro i hi
+  obtain ⟨t, ht, e⟩ := tupleForIndex_good rev g i hi
+  simp [BC.hashForIndex, ht, bind, Except.bind, e]
+
+/-! ## maximum weight -/
+
+/-- **C15_blockchain_over_spec**.  After every history (deliveries and interleaved `lock_to_index` calls, every pop
+order), the unlocked chain `c` the BlockChain reports (its cache, tip first) is a chain of registered headers from the
+current anchor (`parent_hash`: the anchor the object was created with, or the last locked block), and no chain of
+registered headers from that anchor is heavier.  The finder's completeness is no longer a hypothesis: it follows from
+`C15_chainfinder_inv`. -/
+theorem C15_blockchain_over_spec (anchor0 : Nat) (rev : Bool) (steps : List Step) (obs : List Obs) (bc' : BC)
+    (hav : ∀ s ∈ steps, s.avoids anchor0)
+    (hr : runHist rev (BC.new anchor0) steps = .ok (obs, bc')) :
+    ∃ c : List Nat, curChain bc' c ∧ UpPath bc'.finder.parent (c ++ [bc'.parentHash]) ∧
+      ∀ c'' : List Nat, UpPath bc'.finder.parent (c'' ++ [bc'.parentHash]) →
+        chainWeight bc'.weight c'' ≤ chainWeight bc'.weight c := by
+  obtain ⟨c', f, _⟩ := run_full anchor0 rev steps (BC.new anchor0) bc' [] obs (Full.init anchor0) hav hr
+  exact ⟨c', f.good.cur, f.good.path, f.heaviest⟩
 
 /-- **C15_spec_chain_is_model_chain**: the bridge to `Spec/Chain.lean`.  Whenever the dicts record the delivered
 headers `D` and the anchor has no entry, a chain of the specification (index order) is, tip first, a chain from the
@@ -183,23 +139,22 @@ theorem C15_spec_chain_is_model_chain (D : List Hdr) (pl w : Dict Nat)
   intro x hx
   simp at hx; subst hx; exact ha
 
-/-- **C15_heaviest_over_spec** (partial, as `C15_blockchain_over_spec_partial`, now against `Spec.Chain`): after an
-`add_headers` call whose finder is sound and complete, no chain of delivered headers descending from the anchor
-(in the sense of the specification) is heavier than the reported unlocked chain. -/
-theorem C15_heaviest_over_spec_partial (anchor0 : Nat) (rev : Bool) (rank : List Nat) (bc bc' : BC) (c : List Nat)
-    (batch : List Header) (ops : List Op)
-    (h0 : ∀ hd ∈ batch, hd.hash ≠ anchor0) (g : Good anchor0 bc c)
-    (hr : bc.addHeaders rev rank batch = .ok (ops, bc'))
-    (hs : FinderSound bc'.finder) (hc : FinderComplete rev bc'.finder bc'.parentHash)
+/-- **C15_heaviest_over_spec**, against `Spec.Chain`: after every history, no chain of the specification descending
+from the current anchor is heavier than the reported unlocked chain — for every set `D` of delivered headers that the
+finder and `weight_lookup` currently record (partial in this respect only: that the dicts record *all* unlocked
+delivered headers of a forest is checked by the differential runs, `c15inv`, not proved). -/
+theorem C15_heaviest_over_spec_partial (anchor0 : Nat) (rev : Bool) (steps : List Step) (obs : List Obs) (bc' : BC)
+    (hav : ∀ s ∈ steps, s.avoids anchor0)
+    (hr : runHist rev (BC.new anchor0) steps = .ok (obs, bc'))
     (D : List Hdr)
     (hD : ∀ hd ∈ D, dget bc'.finder.parent hd.hash = some hd.parent ∧ dget bc'.weight hd.hash = some hd.weight) :
-    ∃ c', bc'.cache = some c' ∧
-      ∀ sc : List Hdr, IsChainFrom D bc'.parentHash sc → totalWeight sc ≤ chainWeight bc'.weight c' := by
-  obtain ⟨c', g', hcache, _, hmax⟩ := C15_blockchain_over_spec_partial anchor0 rev rank bc bc' c batch ops h0 g hr hs hc
-  refine ⟨c', hcache, ?_⟩
+    ∃ c, curChain bc' c ∧
+      ∀ sc : List Hdr, IsChainFrom D bc'.parentHash sc → totalWeight sc ≤ chainWeight bc'.weight c := by
+  obtain ⟨c, hcur, hpath, hmax⟩ := C15_blockchain_over_spec anchor0 rev steps obs bc' hav hr
+  refine ⟨c, hcur, ?_⟩
   intro sc hsc
   have hanchor : dget bc'.finder.parent bc'.parentHash = none :=
-    UpPath.last_unregistered _ g'.path bc'.parentHash (by simp)
+    UpPath.last_unregistered _ hpath bc'.parentHash (by simp)
   obtain ⟨u, e⟩ := C15_spec_chain_is_model_chain D _ _ hD _ sc hsc hanchor
   rw [e]; exact hmax _ u
 
@@ -227,6 +182,29 @@ def ChainFinderInv (load : Bool → List Nat → CF → List (Nat × Nat) → Ex
   ∀ (rev : Bool) (batches : List (List (Nat × Nat) × List Nat)) (cf : CF),
     Acyclic (batches.flatMap (·.1)) → loadAll load rev CF.empty batches = .ok cf → FinderSound cf ∧ cf.Covers
 
+theorem loadAll_inv (rev : Bool) : ∀ (batches : List (List (Nat × Nat) × List Nat)) (cf cf' : CF),
+    FinderOK cf → loadAll (fun rev rank cf nodes => cf.loadNodes rev rank nodes) rev cf batches = .ok cf' → FinderOK cf'
+  | [], cf, cf', fo, hr => by simp only [loadAll, Except.ok.injEq] at hr; subst hr; exact fo
+  | (nodes, rank) :: r, cf, cf', fo, hr => by
+      unfold loadAll at hr
+      obtain ⟨cf1, h1, hr⟩ := bind_ok hr
+      exact loadAll_inv rev r cf1 cf' (fo.load rev rank nodes h1) hr
+
+/-- **C15_chainfinder_inv**: for the repaired `meld_new_hashes`, every forest, every batching, every pop order and
+either set iteration order, the finder ends sound and complete.  (Proved by induction over the melding loop with the
+invariant `InvX` relative to the pending set; the acyclicity hypothesis of the clause is not even needed for this
+partial-correctness statement.) -/
+theorem C15_chainfinder_inv : ChainFinderInv (fun rev rank cf nodes => cf.loadNodes rev rank nodes) := by
+  intro rev batches cf _ hr
+  have fo := loadAll_inv rev batches CF.empty cf FinderOK.empty hr
+  refine ⟨fo.inv.sound, ?_⟩
+  intro h hh
+  obtain ⟨v, hv⟩ := (dhas_iff _ _).mp hh
+  rcases fo.inv.covers h v hv (by simp) with ⟨b, t, hb, hm⟩ | h'
+  · obtain ⟨top, s, hl, hd, hbs⟩ := fo.inv.dcompl b t hb
+    exact ⟨b, t, top, s, hb, hm, hl, hd, hbs⟩
+  · simp at h'
+
 /-- the three-header history of DESIGN §8 row 12: `30→20`, then the batch `{20→0, 10→20}` with 10 popped first -/
 def witnessBatches : List (List (Nat × Nat) × List Nat) := [([(30, 20)], []), ([(20, 0), (10, 20)], [10, 20])]
 
@@ -248,9 +226,9 @@ theorem C15_chainfinder_inv_refuted :
   have := (h false witnessBatches _ hac hrun).1.tree 30 [30, 20] (by decide)
   simp [UpPath, dget] at this
 
-/-- the repaired code on the same history: both chains are enumerated under the anchor (a test by evaluation;
-the clause for every forest and pop order is checked by the differential runs and is the open proof target) -/
-theorem C15_chainfinder_inv_witness_partial :
+/-- the repaired code on the same history, by evaluation (an instance of `C15_chainfinder_inv`): both chains are
+enumerated under the anchor -/
+theorem C15_chainfinder_inv_witness :
     loadAll (fun rev rank cf nodes => cf.loadNodes rev rank nodes) false CF.empty witnessBatches =
       .ok ⟨[(30, 20), (20, 0), (10, 20)], [(0, [30, 10])], [(30, [30, 20, 0]), (10, [10, 20, 0])]⟩ := by
   rfl
@@ -264,5 +242,12 @@ theorem C15_chainfinder_inv_witness_partial :
 #guard (match runHist false (BC.new 0) [.add [⟨30, 20, 5⟩] [], .add [⟨20, 0, 1⟩, ⟨10, 20, 1⟩] [10, 20]] with
   | .ok (obs, _) => replay (allOps obs) [] == some [20, 30]
   | .error _ => false)
+
+/-- the hypotheses of `C15_never_raises` are satisfiable: the three-header history with `f = id`-like ranks -/
+example : ∀ s ∈ [Step.add [⟨30, 20, 5⟩] [], Step.add [⟨20, 0, 1⟩, ⟨10, 20, 1⟩] [10, 20]],
+    s.wf (fun x => if x = 0 then 0 else if x = 20 then 1 else 2) 0 := by
+  intro s hs
+  simp at hs
+  rcases hs with rfl | rfl <;> simp [Step.wf]
 
 end Pycoin.Chain
